@@ -98,3 +98,25 @@ def fold(*, init: tuple, sorts: tuple, views: dict):
 
 def implies(a, b):
     return (not a) or b
+
+
+# ---------------------------------------------------------------------------------------------
+# Lemmas about folds.  An *absorbing* predicate P over the automaton state satisfies
+#     P(state) ==> P(step(state, c))   for every character c          (one-step closure)
+# The one-step closure is discharged by the solver as a named obligation on every run
+# (`spec-lemma` obligations); the engine then uses the instances
+#     0 <= e1 <= e2 <= len(x)  and  P(f(x[:e1]))  ==>  P(f(x[:e2]))
+# which follow from it by induction on e2 - e1.  That induction principle is part of the
+# engine's trusted meta-theory (listed under assumptions in every evidence file).
+LEMMAS: list = []
+
+
+@dataclass
+class AbsorbingLemma:
+    fold: str
+    pred: str
+    name: str = ""
+
+
+def absorbing(step, pred: str, name: str = ""):
+    LEMMAS.append(AbsorbingLemma(fold=step.__name__, pred=pred, name=name or f"{step.__name__}:absorbing[{pred}]"))
